@@ -165,8 +165,10 @@ Add(b) == /\ AdminOn /\ b \notin SeqToSet(order)
           /\ order' = Append(order, b)
           /\ flag' = [flag EXCEPT ![b] = TRUE] /\ mirror' = [mirror EXCEPT ![b] = TRUE]
           /\ age' = [age EXCEPT ![b] = 0] /\ cw' = [cw EXCEPT ![b] = 0] /\ infl' = [infl EXCEPT ![b] = 0]
+          \* a (re-)added backend is a fresh backend: no failure history under its name
+          /\ pfail' = [pfail EXCEPT ![b] = 0]
           /\ evs' = <<[ev |-> "add", b |-> b]>>
-          /\ UNCHANGED <<strat, pfail, rr, probe>>
+          /\ UNCHANGED <<strat, rr, probe>>
 
 Remove(b) == /\ AdminOn /\ b \in SeqToSet(order) /\ Len(order) > 1 /\ infl[b] = 0
              /\ LET i == CHOOSE j \in DOMAIN order : order[j] = b
